@@ -175,7 +175,7 @@ PROPS = {
     },
     'C20': {
         'contract_modules': ['c20_appmonitor'],
-        'functions': ['treadmill.sproc.appmonitor:reevaluate'],
+        'functions': ['treadmill.sproc.appmonitor:reevaluate', 'treadmill.sproc.appmonitor:_run_sync._monitor_data_watch'],
         'replay': 'c20.py',
         'assumptions': [
             'per evaluation only: the clauses about the two REST requests are call-site obligations at the two '
@@ -535,7 +535,8 @@ PROPS = {
     'C19': {
         'contract_modules': ['c19_allocation_api'],
         'functions': ['treadmill.api.allocation:_check_limit', 'treadmill.api.allocation:_calc_free',
-                      'treadmill.api.allocation:_calc_free_traits', 'treadmill.api.allocation:_check_capacity'],
+                      'treadmill.api.allocation:_calc_free_traits', 'treadmill.api.allocation:_check_capacity',
+                      'treadmill.api.allocation:API._ReservationAPI.update'],
         'replay': 'c19.py',
         'assumptions': [
             'admin (LDAP) layer returns schema-valid reservation and partition records; multi-valued LDAP '
